@@ -1,6 +1,7 @@
 package harness
 
 import (
+	"net/http"
 	"context"
 	"fmt"
 	"strings"
@@ -75,16 +76,61 @@ type CalBackend struct {
 	PutErr    error
 	// QueryResult overrides what QueryCalendarObjects returns (default: all objects under the path).
 	QueryResult []caldav.CalendarObject
+	// Users: other authenticated users (by context) and their principal / home-set paths.
+	Users map[string]UserPaths
+}
+
+// Several users on one handler: the request context may name the authenticated user (WithUser, or the
+// X-User header through UserFromHeader); a double whose Users map knows that name answers
+// CurrentUserPrincipal and the home-set path with that user's paths.
+type userKey struct{}
+
+type UserPaths struct{ Principal, HomeSet string }
+
+func WithUser(ctx context.Context, u string) context.Context {
+	return context.WithValue(ctx, userKey{}, u)
+}
+
+func userOf(ctx context.Context) string { u, _ := ctx.Value(userKey{}).(string); return u }
+
+// UserFromHeader wraps a handler: the X-User request header becomes the authenticated user of the context.
+func UserFromHeader(h http.Handler) http.Handler {
+	return http.HandlerFunc(func(w http.ResponseWriter, r *http.Request) {
+		if u := r.Header.Get("X-User"); u != "" {
+			r = r.WithContext(WithUser(r.Context(), u))
+		}
+		h.ServeHTTP(w, r)
+	})
+}
+
+// HeaderClient adds one header to every request it passes on.
+type HeaderClient struct {
+	Inner interface {
+		Do(*http.Request) (*http.Response, error)
+	}
+	Key, Value string
+}
+
+func (c *HeaderClient) Do(r *http.Request) (*http.Response, error) {
+	r = r.Clone(r.Context())
+	r.Header.Set(c.Key, c.Value)
+	return c.Inner.Do(r)
 }
 
 func notFound(what string) error { return webdav.NewHTTPError(404, fmt.Errorf("%s not found", what)) }
 
 func (b *CalBackend) CurrentUserPrincipal(ctx context.Context) (string, error) {
 	b.rec(ctx, "CurrentUserPrincipal", "", nil)
+	if up, ok := b.Users[userOf(ctx)]; ok {
+		return up.Principal, nil
+	}
 	return b.Principal, nil
 }
 func (b *CalBackend) CalendarHomeSetPath(ctx context.Context) (string, error) {
 	b.rec(ctx, "CalendarHomeSetPath", "", nil)
+	if up, ok := b.Users[userOf(ctx)]; ok {
+		return up.HomeSet, nil
+	}
 	return b.HomeSet, nil
 }
 func (b *CalBackend) CreateCalendar(ctx context.Context, c *caldav.Calendar) error {
@@ -224,14 +270,21 @@ type CardBackend struct {
 	PutResult   *carddav.AddressObject
 	PutErr      error
 	QueryResult []carddav.AddressObject
+	Users       map[string]UserPaths
 }
 
 func (b *CardBackend) CurrentUserPrincipal(ctx context.Context) (string, error) {
 	b.rec(ctx, "CurrentUserPrincipal", "", nil)
+	if up, ok := b.Users[userOf(ctx)]; ok {
+		return up.Principal, nil
+	}
 	return b.Principal, nil
 }
 func (b *CardBackend) AddressBookHomeSetPath(ctx context.Context) (string, error) {
 	b.rec(ctx, "AddressBookHomeSetPath", "", nil)
+	if up, ok := b.Users[userOf(ctx)]; ok {
+		return up.HomeSet, nil
+	}
 	return b.HomeSet, nil
 }
 func (b *CardBackend) ListAddressBooks(ctx context.Context) ([]carddav.AddressBook, error) {
